@@ -18,11 +18,11 @@ LEVEL_TEXT = ('each point performs a real put -> history -> restore round trip; 
 LEVEL_NOTE = 'trusted: CPython/shutil, tmpfs, shim mount rules; names limited to the alphabet (non-UTF-8 names are C16 territory)'
 RULE = ('names (24, incl. spaces, newlines, %, leading -, non-ASCII, 255 bytes) x kinds (6) x layout (home, .Trash/uid, .Trash-uid, '
         '--trash-dir, .Trash-uid next to insecure .Trash/uid directories on two volumes, .Trash-uid being a symbolic link) x sort (date,path,none) x scope (cwd=dir, cwd=ancestor, cwd=/, explicit path) x history (6); quick tier '
-        'restricts names to 8 (incl. trailing blank / tab / newline inside / %XX / leading dash / non-ASCII / 255 bytes), scopes to 2 and histories to 3; non-trivial = listing printed and index chosen; distinct = '
+        'restricts names to 12 (incl. trailing blank / tab / newline inside / %XX / leading dash / non-ASCII / 255 bytes), scopes to 2 and histories to 3; non-trivial = listing printed and index chosen; distinct = '
         'outcome class x all dimensions')
 NAMES = ['a.trashinfo.bak', 'a', 'a b', ' lead', 'trail ', 'a\nb', 'a\rb', 'tab\t', '%41', 'a%', '%', '-x', '--', 'é', '日本', '.hidden',
-         'a.trashinfo', '*?[', '=', '#', '+', '&;', '"\'', '\\', 'L' * 255]
-QNAMES = ['a', 'trail ', 'a\nb', '%41', '-x', '日本', 'tab\t', 'L' * 255, 'a.trashinfo.bak', '.hidden']
+         'a.trashinfo', '*?[', '=', '#', '+', '&;', '"\'', '\\', 'L' * 255, '..notes', '...']
+QNAMES = ['a', 'trail ', 'a\nb', '%41', '-x', '日本', 'tab\t', 'L' * 255, 'a.trashinfo.bak', '.hidden', '..notes', '...']
 LAYOUTS = ['home', 'top-sticky', 'top-alt', 'trash-dir', 'top-alt-insecure', 'top-alt-link']
 SORTS = ['date', 'path', 'none']
 SCOPES = ['dir', 'ancestor', 'root', 'path-arg']
